@@ -528,6 +528,17 @@ func buildTargets(ctx context.Context, fx *noderig.Fixture) ([]named, func(), er
 	}
 	out = append(out, named{"accessnode", an})
 	closers = append(closers, an.Close)
+	for _, v := range []struct {
+		name     string
+		set, key bool
+	}{{"accessnode(eon-key-only)", false, true}, {"accessnode(keyper-set-only)", true, false}, {"accessnode(empty)", false, false}} {
+		x, err := noderig.NewAccessNodeWith(ctx, fx, v.set, v.key)
+		if err != nil {
+			return nil, nil, err
+		}
+		out = append(out, named{v.name, x})
+		closers = append(closers, x.Close)
+	}
 	hub, err := noderig.NewSnapshotHub(ctx, fx)
 	if err != nil {
 		return nil, nil, err
